@@ -321,14 +321,17 @@ def same_term(ex, a, b):
 
 # ---------------------------------------------------------------------------------------------
 GROUPS = {
-    "$list": lambda f: f == "$len" or f.startswith("$it"),
+    "$list": lambda f: f.startswith("$len<") or f.startswith("$it"),
     "$dict": lambda f: f.startswith("$d"),
-    "$arr": lambda f: f == "$len" or f.startswith("$a") or f.startswith("$it"),
+    "$arr": lambda f: f.startswith("$a"),
     "*": lambda f: True,
 }
 
 
 def field_matches(pat, field):
+    if pat.startswith("$list<"):          # one type partition of the list maps only
+        part = pat[len("$list"):]
+        return (field.startswith("$len<") or field.startswith("$it")) and field.endswith(part)
     base = field.split("$")[0] if (not field.startswith("$") and "$" in field) else field
     if pat in GROUPS:
         return GROUPS[pat](field)
@@ -362,6 +365,10 @@ def mod_conditions(ex, fr, modifies):
 def ensure_declared_maps(ex, modifies):
     """make sure the heap maps of explicitly named fields exist before havoc"""
     for pat, _ in modifies:
+        if pat.startswith("$list<"):
+            part = pat[len("$list"):]
+            ex.hmap("$len" + part, INT)
+            continue
         if pat in GROUPS:
             continue
         for (c, f), ty in list(spec.FIELD_TYPES.items()):
